@@ -756,6 +756,9 @@ func excluded(class string) bool {
 //	                     contains a Runtime.Close.
 //	engine-close-race    C10-race-engine-close (interpreter; fixed by 458ac39; for runs on older
 //	                     trees). Excluded like compile-during-close.
+//	codecloser-race      C10-codecloser-race: InstantiateModule attaches CodeCloser after the instance
+//	                     was registered. Only the race detector sees it: excluded (race binary)
+//	                     like the code-owning half of closenotifier-race.
 //	wazevo-engine-close-race
 //	                     C10-race-wazevo-engine-close: wazevo compileModule reads
 //	                     engine.sharedFunctions without the engine mutex while engine.Close
@@ -777,7 +780,11 @@ func genConc(t *rapid.T) *ConcCase {
 	hasRC := rapid.IntRange(0, 9).Draw(t, "has-runtime-close") < 4
 	lookupCloses := rapid.IntRange(0, 9).Draw(t, "closes-through-lookup") < 5
 	notifOK := !(exD && (hasRC || lookupCloses))
-	ownCodeOK := !((exD && (hasRC || lookupCloses)) || (hasRC && (exP || exC)))
+	exCC := excluded("codecloser-race") && raceMode()
+	ownCodeOK := !(((exD || exCC) && (hasRC || lookupCloses)) || (hasRC && (exP || exC)))
+	if exCC && (hasRC || lookupCloses) {
+		evid.Label("excluded-codecloser-race", 1)
+	}
 	compileOK := !(hasRC && (exP || exC))
 	hostPostOK := !(hasRC && exclHostAfterClose)
 	if !notifOK {
@@ -1188,10 +1195,10 @@ func clip(s string, n int) string {
 
 // probeNotifierRace: instantiate with a close notifier while another goroutine closes the
 // runtime. Returns the number of iterations in which the notification was lost.
-func probeNotifierRace(iter int) (lost int, detail string) {
+func probeNotifierRace(iter int, fromBin bool) (lost int, detail string) {
 	for i := 0; i < iter; i++ {
 		c := &ConcCase{Kind: "conc", Engine: wz.Engines[i%2], Procs: 4,
-			Threads: [][]Op{{{K: kInst, Bin: 1, Set: true, Name: "a", Y: i % 5, FromBin: i%3 == 2}}, {{K: kRtClose, Y: (i / 5) % 5}}}}
+			Threads: [][]Op{{{K: kInst, Bin: 1, Set: true, Name: "a", Y: i % 5, FromBin: fromBin, NoNotif: fromBin}}, {{K: kRtClose, Y: (i / 5) % 5}}}}
 		res, err := runConc(c)
 		if err != nil {
 			return lost, err.Error()
@@ -1234,7 +1241,8 @@ func probeCompileDuringClose(iter int) (panics int, detail string) {
 }
 
 var probeText = map[string]string{
-	"notifier": "{InstantiateModule / InstantiateWithConfig with a CloseNotifier || Runtime.Close}, 300 runs",
+	"notifier":   "{InstantiateModule of a pre-compiled module with a CloseNotifier || Runtime.Close}, 300 runs",
+	"codecloser": "{InstantiateWithConfig(bytes) without notifier || Runtime.Close}, 300 runs",
 	"compile":  "{CompileModule of fresh binaries / HostModuleBuilder.Compile || Runtime.Close}, 300 runs",
 }
 
@@ -1242,8 +1250,10 @@ var probeText = map[string]string{
 func TestProbeChild(t *testing.T) {
 	switch os.Getenv("VERIF_C10_CHILD") {
 	case "notifier":
-		lost, _ := probeNotifierRace(300)
+		lost, _ := probeNotifierRace(300, false)
 		fmt.Printf("CHILD lost-notifications=%d\n", lost)
+	case "codecloser":
+		probeNotifierRace(300, true)
 	case "compile":
 		p, _ := probeCompileDuringClose(300)
 		fmt.Printf("CHILD panics=%d\n", p)
@@ -1276,13 +1286,16 @@ func TestRaceFindings(t *testing.T) {
 		t.Skip()
 	}
 	reported := map[string]bool{}
-	for _, probe := range []string{"notifier", "compile"} {
+	for _, probe := range []string{"notifier", "codecloser", "compile"} {
 		out := runChild(probe)
 		for _, rep := range splitRaceReports(out) {
 			if !strings.Contains(rep, "tetratelabs/wazero") {
 				continue
 			}
 			id := classifyRace(rep)
+			if id == "C10-closenotifier-race" && probe == "codecloser" {
+				id = "C10-codecloser-race" // same frames; this probe attaches no notifier
+			}
 			if id == "" {
 				id = "C10-unclassified-race"
 			}
@@ -1296,7 +1309,7 @@ func TestRaceFindings(t *testing.T) {
 			}
 		}
 	}
-	for _, id := range []string{"C10-closenotifier-race", "C10-race-engine-close", "C10-race-wazevo-engine-close"} {
+	for _, id := range []string{"C10-closenotifier-race", "C10-codecloser-race", "C10-race-engine-close", "C10-race-wazevo-engine-close"} {
 		if !reported[id] {
 			evid.Note("%s: not reported by the race detector in this run of the probes", id)
 		}
@@ -1311,7 +1324,7 @@ func TestConcFindings(t *testing.T) {
 	if sh, _ := evid.Shard(); sh != 0 {
 		t.Skip()
 	}
-	if lost, detail := probeNotifierRace(3000); lost > 0 {
+	if lost, detail := probeNotifierRace(3000, false); lost > 0 {
 		c := map[string]any{"kind": "probe", "probe": "notifier", "iterations": 3000}
 		if evid.Finding("C10-closenotifier-race", "probe-closenotifier-race", c, "%d of 3000 runs of {InstantiateModule with CloseNotifier || Runtime.Close}: the instance was closed without its notification\n%s", lost, detail) {
 			t.Fail()
@@ -1391,7 +1404,7 @@ func TestReplay(t *testing.T) {
 		if head.Probe == "compile" {
 			lost, detail = probeCompileDuringClose(3000)
 		} else {
-			lost, detail = probeNotifierRace(3000)
+			lost, detail = probeNotifierRace(3000, false)
 		}
 		if lost > 0 {
 			evid.Violation("replay", head, "probe %s: %d of 3000 runs failed\n%s", head.Probe, lost, detail)
